@@ -18,7 +18,7 @@ RULE = ("generated coolers with 1-3 weight columns (names weight, KR, VC, VC_SQR
         "Non-trivial: window holds >=1 stored pixel; distinct = (cooler, weight column, options, window)")
 ASSUMPTIONS = ["dense output is NaN wherever either bin is masked (outer product), sparse/pixel outputs only list stored "
                "entries", "one or two multiplications: rtol 1e-12"]
-EXHAUSTIVE = {"quick": "all windows for n<=5", "thorough": "all windows for n<=7"}
+EXHAUSTIVE = {"quick": "all windows for n<=5", "thorough": "all windows for n<=8"}
 MIN_NONTRIVIAL = {"quick": 1500, "thorough": 15000}
 REQUIRED_FEATURES = ["name:weight", "name:KR", "name:VC", "name:VC_SQRT", "name:custom", "divisive:None", "divisive:True",
                      "divisive:False", "window:rectangular", "window:diagonal-square", "window:empty", "form:dense",
@@ -32,9 +32,9 @@ def plan(tier, seed):
     if tier == "quick":
         return [{"kind": "exh", "n": [5, 4, 3, 5, 4, 5][i % 6], "sub": i} for i in range(12)] + \
                [{"kind": "sampled", "n": 14, "windows": 250, "sub": 100 + i} for i in range(3)] + [{"kind": "cli", "cases": 6}]
-    return [{"kind": "exh", "n": [7, 6, 5, 7, 6, 4][i % 6], "sub": i} for i in range(36)] + \
-           [{"kind": "sampled", "n": [14, 30][i % 2], "windows": 1500, "sub": 100 + i} for i in range(10)] + \
-           [{"kind": "cli", "cases": 30}]
+    return [{"kind": "exh", "n": [8, 7, 6, 7, 8, 5][i % 6], "sub": i} for i in range(48)] + \
+           [{"kind": "sampled", "n": [14, 30, 60][i % 3], "windows": 2500, "sub": 100 + i} for i in range(16)] + \
+           [{"kind": "cli", "cases": 60}]
 
 
 def run(ctx, shard):
